@@ -31,6 +31,8 @@ type Stepper interface {
 	// IterNested drains All() and compares it with the reference; when the pass
 	// reaches element number at, nested (if any) is run inside the loop body.
 	IterNested(at int, nested func())
+	// PendingSeqs creates sequence values, runs between, then drains and compares them.
+	PendingSeqs(r *rng.R, between func())
 	// AbandonDescending starts a descending pass (Backward / TopK) and leaves it early.
 	AbandonDescending()
 }
@@ -442,7 +444,75 @@ func (s *Session[K]) abandonDescending() {
 	})
 }
 
-func (st *stepper[K]) IterNested(at int, nested func())      { st.s.CheckIterNested(at, nested) }
-func (st *stepper[K]) AbandonDescending()                    { st.s.abandonDescending() }
-func (st *sweepStepper[K]) IterNested(at int, nested func()) { st.s.CheckIterNested(at, nested) }
-func (st *sweepStepper[K]) AbandonDescending()               { st.s.abandonDescending() }
+// CheckPendingSeqs: sequence values of every kind are created first, then between()
+// runs (work on other trees), then each is drained and compared with the reference.
+// The tree itself is not touched in between, so what it would deliver alone is the model.
+func (s *Session[K]) CheckPendingSeqs(r *rng.R, between func()) {
+	if s.Dead || s.M.Len() == 0 {
+		return
+	}
+	type pend struct {
+		name string
+		seq  iter.Seq2[K, uint64]
+		want []*ref.Entry[K]
+	}
+	var ps []pend
+	sorted := append([]*ref.Entry[K]{}, s.M.Sorted()...)
+	n := len(sorted)
+	kk := 1 + r.Intn(4)
+	s.log("sequence values created (All, Backward, BottomK/TopK(%d), Range, Prefix), operations on another tree, then drained", kk)
+	if s.guard("creating sequence values", func() {
+		ps = append(ps, pend{"All", s.T.All(), sorted})
+		ps = append(ps, pend{"Backward", s.T.Backward(), reversed(sorted)})
+		ps = append(ps, pend{"BottomK", s.T.BottomK(uint(kk)), sorted[:min(kk, n)]})
+		ps = append(ps, pend{"TopK", s.T.TopK(uint(kk)), reversed(sorted)[:min(kk, n)]})
+		if s.K.HasRange {
+			a, b := sorted[r.Intn(n)].Key, sorted[r.Intn(n)].Key
+			if want, skip := s.expectedRange(a, b); skip == "" {
+				ps = append(ps, pend{"Range", s.T.Range(s.fresh(a), s.fresh(b)), want})
+			}
+		}
+		if s.K.HasPrefix && s.K.Family != "collation" {
+			qs := s.K.PrefixQueries(r, sorted[r.Intn(n)].Key)
+			if len(qs) > 0 {
+				p := qs[r.Intn(len(qs))]
+				if s.K.PrefixArgOK(p) {
+					var want []*ref.Entry[K]
+					for _, e := range sorted {
+						if s.K.PrefixOf(e.Key, p) {
+							want = append(want, e)
+						}
+					}
+					ps = append(ps, pend{"Prefix", s.T.Prefix(s.fresh(p)), want})
+				}
+			}
+		}
+	}) {
+		return
+	}
+	if between != nil {
+		between()
+	}
+	for _, p := range ps {
+		if s.Dead {
+			return
+		}
+		got, ok := s.drain(p.name+" (pending across another tree's operations)", func() iter.Seq2[K, uint64] { return p.seq }, n+1)
+		if !ok {
+			return
+		}
+		s.Res.Evaluations++
+		s.Res.Inc("pending_seq_across_trees_" + p.name)
+		if !s.equalSeq(got, p.want) {
+			s.violate("a "+p.name+" sequence created before, and drained after, operations on another tree differs from what this tree delivers alone",
+				s.showEntries(p.want), s.showPairs(got), "")
+		}
+	}
+}
+
+func (st *stepper[K]) PendingSeqs(r *rng.R, between func())      { st.s.CheckPendingSeqs(r, between) }
+func (st *sweepStepper[K]) PendingSeqs(r *rng.R, between func()) { st.s.CheckPendingSeqs(r, between) }
+func (st *stepper[K]) IterNested(at int, nested func())          { st.s.CheckIterNested(at, nested) }
+func (st *stepper[K]) AbandonDescending()                        { st.s.abandonDescending() }
+func (st *sweepStepper[K]) IterNested(at int, nested func())     { st.s.CheckIterNested(at, nested) }
+func (st *sweepStepper[K]) AbandonDescending()                   { st.s.abandonDescending() }
